@@ -167,6 +167,51 @@ func runStress(seed int64) Result {
 		wg.Wait()
 		res.Cases++
 	}
+	// one Resolved whose documents declare DIFFERENT dialects (2020-12 root, draft-07 Loader document and the reverse):
+	// whatever a call keeps about "the dialect being read" is the call's own
+	for _, mixed := range []struct{ root, rem string }{
+		{`{"type":"object","properties":{"pair":{"prefixItems":[{"type":"string"},{"type":"integer"}],"items":false},"rem":{"$ref":"http://h/rem.json"}},"dependentRequired":{"a":["b"]}}`,
+			`{"$schema":"http://json-schema.org/draft-07/schema#","items":[{"type":"integer"}],"additionalItems":{"type":"string"},"dependencies":{"c":["d"]}}`},
+		{`{"$schema":"http://json-schema.org/draft-07/schema#","type":"object","properties":{"pair":{"items":[{"type":"string"},{"type":"integer"}],"additionalItems":false},"rem":{"$ref":"http://h/rem.json"}},"dependencies":{"a":["b"]}}`,
+			`{"$schema":"https://json-schema.org/draft/2020-12/schema","prefixItems":[{"type":"integer"}],"items":{"type":"string"},"dependentRequired":{"c":["d"]}}`},
+	} {
+		var mr, md jsonschema.Schema
+		json.Unmarshal([]byte(mixed.root), &mr)
+		json.Unmarshal([]byte(mixed.rem), &md)
+		mrs, err := mr.Resolve(&jsonschema.ResolveOptions{BaseURI: "http://h/root.json", Loader: func(*url.URL) (*jsonschema.Schema, error) { return &md, nil }})
+		if err != nil {
+			panic(err)
+		}
+		docs := []string{`{"pair":["a",1],"rem":[1,"x"]}`, `{"pair":["a",1,2],"rem":[1]}`, `{"pair":[1],"rem":["x"]}`, `{"a":1,"rem":{"c":1}}`, `{"a":1,"b":2,"rem":[1,2]}`,
+			`{"pair":["a","b"],"rem":{"c":1,"d":2}}`}
+		want := make([]bool, len(docs))
+		for i, d := range docs {
+			var v any
+			json.Unmarshal([]byte(d), &v)
+			want[i] = mrs.Validate(v) == nil
+		}
+		var wgm sync.WaitGroup
+		for g := 0; g < G; g++ {
+			wgm.Add(1)
+			go func(g int) {
+				defer wgm.Done()
+				for m := 0; m < 4*M; m++ {
+					i := (g + m) % len(docs)
+					var v any
+					json.Unmarshal([]byte(docs[i]), &v)
+					got := mrs.Validate(v) == nil
+					mu.Lock()
+					res.Evaluations++
+					if got != want[i] {
+						addFail("concurrent-validate", "a Resolved whose root and Loader document declare different dialects: "+docs[i], want[i], got)
+					}
+					mu.Unlock()
+				}
+			}(g)
+		}
+		wgm.Wait()
+		res.Cases++
+	}
 	// For on a shared type (struct-field caches), ApplyDefaults on distinct instances
 	// of one Resolved, and Resolve of roots sharing one Loader document.
 	stressShared = map[int]stressRS{}
